@@ -79,6 +79,11 @@ class Gen:
                 self.sid += 1
                 out.append({"k": "test", "name": "t%d" % self.sid, "body": [{"k": "label", "name": name, "oid": self.new_oid(), "hasBody": False, "body": []}]})
                 out.append({"k": "use", "path": [], "oids": [], "scope": scope, "dead": True, "force": [name]})
+            elif allow_defs and scope and not self.two and x < 0.61 and any(d[0] == () for d in self.defs):
+                # an untaken branch that DEFINES a constant named like an outer symbol, then a use of that name: the build uses the outer one
+                name = self.r.choice([d[1] for d in self.defs if d[0] == ()])
+                out.append({"k": "if0", "body": [{"k": "const", "name": name, "oid": self.new_oid()}]})
+                out.append({"k": "use", "path": [], "oids": [], "scope": scope, "dead": True, "force": [name]})
             elif allow_defs and scope and x < 0.615:
                 out.append({"k": "blk", "oid": self.new_oid()})          # `bne -`: a use of the automatic block-start symbol
             elif x < 0.64 and depth < self.maxdepth:
